@@ -348,6 +348,13 @@ def check_passthrough(chk, prog, sim, name):
                         chk.violation("analysis-incomplete" if gl.kind == "unsupported" else "C05.O6", key, "%s get: %s %s" % (tag, gl.kind, gl.info.get("msg")))
                         ok = False
                         continue
+                    polled_in_update = any(e[0] == "call" and e[2].split("::")[-1] == "get" for e in leaf.effects)
+                    polls_in_get = [e for e in gl.effects if e[0] == "call"]
+                    if polled_in_update and polls_in_get:
+                        chk.violation("C05.O4", "%s:get-polls-input:in=%s" % (tag, cat), "%s caches its input in update() but get() also polls the input (%s) after an update with input %s: "
+                                      "get() then reports what the input says NOW, not what it returned at the most recent update, and two get() calls can disagree" % (tag, polls_in_get[0][2], cat),
+                                      fn=get["pretty"], file=loc(get["span"]))
+                        ok = False
                     g = K.classify_output(sim, gl.state, gl.value)
                     good = False
                     if cat == "E":
